@@ -4,7 +4,7 @@ import CoclsModel.Aggregator
 open Cocls Cocls.Proto Cocls.Agg
 
 inductive RawAct where
-  | y | a | t (e : Nat)
+  | y | a | t (e : Nat) | ar
   deriving DecidableEq, Inhabited
 
 structure RawScript where
@@ -15,6 +15,7 @@ structure RawScript where
 def parseAct (t : String) : Option RawAct :=
   if t == "y" then some RawAct.y
   else if t == "a" then some RawAct.a
+  else if t == "ar" then some RawAct.ar
   else if t.startsWith "t" then (t.drop 1).toString.toNat?.map RawAct.t
   else none
 
@@ -47,6 +48,7 @@ def mkScript (rs : Array RawScript) (k p : Nat) : Option Act :=
     | none => none
     | some RawAct.y => some (Act.yield ((k + 1) * 1000 + yieldsBefore r p))
     | some RawAct.a => some Act.await
+    | some RawAct.ar => some Act.awaitRead
     | some (RawAct.t e) => some (Act.throw e)
 
 structure Ctx where
@@ -73,9 +75,16 @@ def resultStr (s0 s1 : State) : String :=
     | Ag.failed e => s!"exc:{e}"
     | _ => "pending"
 
+def argStr : Option Nat → String
+  | some a => toString a
+  | none => "dead"
+
+/-- `a<k>=<arg>`: source `k` received an argument; `r<k>=<arg>`: source `k` fetched its argument again after an await -/
 def argEvents (x : Ctx) (s0 s1 : State) : List String :=
   if !x.argMode then []
-  else (List.range x.cfg.n).flatMap (fun k => ((s1.got k).drop (s0.got k).length).map (fun a => s!"a{k}={a}"))
+  else (List.range x.cfg.n).flatMap (fun k =>
+    ((s1.got k).drop (s0.got k).length).map (fun a => s!"a{k}={a}")
+    ++ ((s1.late k).drop (s0.late k).length).map (fun p => s!"r{k}={argStr p.2}"))
 
 def sortStr (xs : List String) : List String := xs.mergeSort (fun a b => !(b < a))
 
@@ -108,6 +117,7 @@ def isDestroyed (s : State) : Bool :=
 def account (s : State) : String :=
   match s.ag with
   | Ag.destroyed => if s.badDestroy.isEmpty then "frames=0 guards=0" else "use-after-free"
+  | Ag.aborted => "abort"
   | _ => "hang"
 
 def validKs (c : Cfg) (ws : List String) : Option (List Nat) :=
@@ -171,13 +181,14 @@ def doOp (x : Ctx) (s : State) (ws : List String) : State × String :=
           else (s, line x "bad-op" s s [])
         else (s, "bad-op")
       else if op == "bnext" then doB x s a []
-      else if op == "destroy" then doD x s [ws[1]!]
+      else if op == "destroy" || op == "cdestroy" then doD x s op [ws[1]!]
       else (s, "bad-op")
   | "bnext" :: a :: ks =>
     match a.toNat? with
     | some a => doB x s a ks
     | none => (s, "bad-op")
-  | "destroy" :: ks => doD x s ks
+  | "destroy" :: ks => doD x s "destroy" ks
+  | "cdestroy" :: ks => doD x s "cdestroy" ks
   | _ => (s, "bad-op")
 where
   doB (x : Ctx) (s : State) (a : Nat) (ks : List String) : State × String :=
@@ -194,15 +205,15 @@ where
         let (s2, bad) := helperResolve c s1 ks
         let r := resultStr s s2
         (s2, line x ("bnext " ++ (if r == "pending" then "hang" else r)) s s2 (if bad then ["bad-helper"] else []))
-  doD (x : Ctx) (s : State) (ks : List String) : State × String :=
+  doD (x : Ctx) (s : State) (op : String) (ks : List String) : State × String :=
     let c := x.cfg
     match validKs c ks with
     | none => (s, "bad-op")
     | some ks =>
       if waiting s then (s, "bad-op") else
-      let s1 := settleAll c (step c s Op.destroy)
+      let s1 := settleAll c (step c s (Op.destroy (op == "cdestroy")))
       let (s2, bad) := helperResolve c s1 ks
-      (s2, line x ("destroy " ++ account s2) s s2 (if bad then ["bad-helper"] else []))
+      (s2, line x (op ++ " " ++ account s2) s s2 (if bad then ["bad-helper"] else []))
 
 def doEnd (x : Ctx) (s : State) : String :=
   let c := x.cfg
@@ -211,7 +222,7 @@ def doEnd (x : Ctx) (s : State) : String :=
   let ev := gotEvent s s1
   if waiting s1 then line x "end" s s1 (ev ++ ["unsettled"])
   else
-    let s2 := settleAll c (step c s1 Op.destroy)
+    let s2 := settleAll c (step c s1 (Op.destroy false))
     line x ("end " ++ account s2) s s2 ev
 
 partial def loop (lines : Array String) (i : Nat) (st : Option (Ctx × State)) : IO Unit := do
@@ -225,7 +236,7 @@ partial def loop (lines : Array String) (i : Nat) (st : Option (Ctx × State)) :
         let ok := rs.length == n && rs.all Option.isSome
         let arr : Array RawScript := (rs.map (fun r => r.getD {})).toArray
         let cfg : Cfg := { n := n, script := mkScript arr }
-        loop lines (i+1) (some ({ cfg := cfg, argMode := mode == "a", ok := ok }, Agg.init))
+        loop lines (i+1) (some ({ cfg := cfg, argMode := mode == "a" || mode == "r", ok := ok }, Agg.init))
     | ["end"], some (x, s) =>
         IO.println (doEnd x s)
         loop lines (i+1) none
